@@ -127,3 +127,43 @@ Fixpoint firstn_N {A : Type} (n : N) (l : list A) : list A :=
 
 Definition top_spec (ls : list str) (n : N) : list str :=
   let (h, b) := header_block ls in h ++ firstn_N n b.
+
+(** ** The whole RETR / TOP reply as bytes on the stream
+
+    [send] writes the status line "+OK <text>" CRLF first; [text] is whatever the handler
+    formats ("<size> bytes follows" / "Top of message follows").  The client reads the status
+    line, sees +OK, and reads the multi-line block up to the terminator; what follows the
+    terminator on the stream (the reply to a pipelined command) is left unread. *)
+Definition ok_prefix : str := [43; 79; 75].   (* "+OK" *)
+
+Definition retr_reply (text src : str) : str := ok_prefix ++ text ++ CRLF ++ pop3_send src.
+Definition top_reply (text src : str) (n : N) : str := ok_prefix ++ text ++ CRLF ++ pop3_send_top src n.
+
+(** One line off the stream, without its LF. *)
+Fixpoint take_line (w : str) : option (str * str) :=
+  match w with
+  | [] => None
+  | c :: w' =>
+      if c =? LF then Some ([], w')
+      else match take_line w' with
+           | Some (l, r) => Some (c :: l, r)
+           | None => None
+           end
+  end.
+
+(** Status line, un-stuffed lines of the block, unread rest of the stream. *)
+Definition client_read_multi (w : str) : option (str * list str * str) :=
+  match take_line w with
+  | None => None
+  | Some (l, w1) =>
+      let st := trim_cr l in
+      if has_prefix ok_prefix st then
+        match pop3_client_lines w1 with
+        | Some (ls, rest) => Some (st, ls, rest)
+        | None => None
+        end
+      else None
+  end.
+
+(** The message up to line-ending normalisation: every line ends in CRLF. *)
+Definition pop3_norm (src : str) : str := crlf_join (scan_lines src).
